@@ -6,6 +6,7 @@ compares the structural relation under(u, v) (computed on the records, suffix by
 reference PSL matcher) with the stem-prefix and string-prefix relations of the recorded LRUs.
 """
 import itertools
+import re
 
 from vf.monitor import Probes
 from vf.ref.psl import PSL
@@ -163,6 +164,8 @@ def check_universe(ctx, name, uni, psl):
                     ctx.viol("C13:result-depends-on-call-order", {"url": r["url"], "suffix_aware": sa}, {"first": want, "later": got})
                 if r["scheme"] == "http":
                     bare = r["url"][len("http://"):]
+                    if re.match(r"^[a-zA-Z]{0,64}:?//", bare):
+                        continue  # 'org//p' is read as a URL with the protocol 'org//' (documented pattern): not a protocol-less spelling
                     try:
                         gb = lru_stems(bare, suffix_aware=sa)
                     except Exception as e:
